@@ -4,6 +4,8 @@ package main
 
 import (
 	"fmt"
+	"sort"
+	"strings"
 	"sync"
 
 	"verif/mc"
@@ -29,13 +31,61 @@ func mkcase(kind string, w, h int, hist []vop, extra ...vop) vcase {
 	return c
 }
 
-// reported remembers which keys already carry a detailed description, so that the expensive
-// consequence probes (which provoke panics) run once per key.
-var reported sync.Map
+// Violations are buffered per key during a sub-space and flushed when it ends, so that the
+// example printed for a key is the smallest failing case (fewest operations, then smallest
+// image) rather than whichever worker happened to come first. Descriptions that need extra
+// probing of the library (what a wrongly accepted crop leads to) are computed at flush time,
+// once per key.
+type pending struct {
+	rank string
+	what func() string
+	cs   interface{}
+	n    int
+}
 
-func firstReport(key string) bool {
-	_, loaded := reported.LoadOrStore(key, true)
-	return !loaded
+var (
+	pendMu sync.Mutex
+	pend   = map[string]*pending{}
+)
+
+func report(key, rank string, what func() string, cs interface{}) {
+	pendMu.Lock()
+	if p := pend[key]; p == nil {
+		pend[key] = &pending{rank, what, cs, 1}
+	} else {
+		p.n++
+		if rank < p.rank {
+			p.rank, p.what, p.cs = rank, what, cs
+		}
+	}
+	pendMu.Unlock()
+}
+
+func flush() {
+	pendMu.Lock()
+	defer pendMu.Unlock()
+	keys := make([]string, 0, len(pend))
+	for k := range pend {
+		keys = append(keys, k)
+	}
+	sort.Strings(keys)
+	for _, k := range keys {
+		p := pend[k]
+		chk.Violation(k, p.what(), p.cs)
+		for i := 1; i < p.n; i++ {
+			chk.Violation(k, "", nil) // keeps the total count; only the first call per key prints
+		}
+	}
+	pend = map[string]*pending{}
+}
+
+func kindIndex(kind string) int {
+	for i, k := range kinds {
+		if k == kind {
+			return i
+		}
+	}
+	return len(kinds)
 }
 
 type diff struct{ aspect, detail string }
@@ -81,16 +131,20 @@ func compareView(src gozxing.LuminanceSource, m *vmodel) *diff {
 					buf[x] = 0x5a
 				}
 			}
+			bufName := "nil"
+			if buf != nil {
+				bufName = fmt.Sprintf("buffer of %d", len(buf))
+			}
 			row, err := src.GetRow(y, buf)
 			if err != nil {
-				return &diff{"pixels", fmt.Sprintf("GetRow(%d, buffer of %d) inside the view returned error %v", y, len(buf), err)}
+				return &diff{"pixels", fmt.Sprintf("GetRow(%d, %s) inside the view returned error %v", y, bufName, err)}
 			}
 			if len(row) < w {
-				return &diff{"pixels", fmt.Sprintf("GetRow(%d, buffer of %d) returned %d bytes for width %d", y, len(buf), len(row), w)}
+				return &diff{"pixels", fmt.Sprintf("GetRow(%d, %s) returned %d bytes for width %d", y, bufName, len(row), w)}
 			}
 			for x := 0; x < w; x++ {
 				if row[x] != mat[y*w+x] {
-					return &diff{"row-vs-matrix", fmt.Sprintf("GetRow(%d, buffer of %d)[%d] = %d but GetMatrix()[%d*%d+%d] = %d (model %d)", y, len(buf), x, row[x], y, w, x, mat[y*w+x], m.pix[y][x])}
+					return &diff{"row-vs-matrix", fmt.Sprintf("GetRow(%d, %s)[%d] = %d but GetMatrix()[%d*%d+%d] = %d (model %d)", y, bufName, x, row[x], y, w, x, mat[y*w+x], m.pix[y][x])}
 				}
 			}
 		}
@@ -122,7 +176,22 @@ type stepper struct {
 }
 
 func (s *stepper) viol(key, what string, op ...vop) {
-	chk.Violation(key, fmt.Sprintf("%s [%s %dx%d after %v]", what, s.kind, s.w, s.h, mkcase(s.kind, s.w, s.h, s.hist, op...).Ops), mkcase(s.kind, s.w, s.h, s.hist, op...))
+	s.violf(key, func() string { return what }, op...)
+}
+
+func (s *stepper) violf(key string, what func() string, op ...vop) {
+	cs := mkcase(s.kind, s.w, s.h, s.hist, op...)
+	tiny := 0
+	if s.w < 4 || s.h < 4 {
+		tiny = 1 // prefer an illustrative example over a degenerate 1x1 image
+	}
+	area := 0 // among equally short histories prefer the larger final crop rectangle: it shows more pixels
+	if n := len(op); n > 0 && op[n-1].Op == "crop" && op[n-1].W > 0 && op[n-1].H > 0 {
+		area = op[n-1].W * op[n-1].H
+	}
+	rank := fmt.Sprintf("%d/%02d/%07d/%02d/%07d/%v", tiny, len(cs.Ops), s.w*s.h, kindIndex(s.kind), 9999999-area, cs.Ops)
+	kind, w, h := s.kind, s.w, s.h
+	report(key, rank, func() string { return fmt.Sprintf("%s [%s %dx%d after %v]", what(), kind, w, h, cs.Ops) }, cs)
 }
 
 // check compares a freshly produced view with its model; opclass names the operation class for the key.
@@ -152,12 +221,24 @@ func (s *stepper) check(ns gozxing.LuminanceSource, nm *vmodel, opclass string, 
 	case "row-out-of-range":
 		s.viol("C17/row-out-of-range/"+base, d.detail, op...)
 	default:
-		s.viol("C17/"+opclass+"/"+base, d.detail, op...)
+		key := "C17/" + opclass + "/" + base
+		if nm.inv && d.aspect == "pixels" && opclass != "invert" {
+			// does the view show the un-inverted pixels? then the inversion was lost on the way
+			var dd *diff
+			pm2, _ := mc.Guard(func() { dd = compareView(ns, nm.invert()) })
+			if pm2 == "" && dd == nil {
+				key = "C17/invert/" + base
+				d.detail += " (the view shows the pixels without the inversion)"
+			}
+		}
+		s.viol(key, d.detail, op...)
 	}
 	return false
 }
 
-// consequences describes what a wrongly accepted crop leads to (for the violation text).
+// consequences describes what a wrongly accepted crop leads to (for the violation text): the
+// first row whose fetch panics and the first row that returns pixels although the requested
+// rectangle has none there, with the place in the image those pixels really come from.
 func consequences(ns gozxing.LuminanceSource, m *vmodel, o vop) string {
 	if ns == nil {
 		return "returned a nil source without error"
@@ -165,34 +246,35 @@ func consequences(ns gozxing.LuminanceSource, m *vmodel, o vop) string {
 	var out string
 	pm, _ := mc.Guard(func() {
 		w, h := ns.GetWidth(), ns.GetHeight()
-		out = fmt.Sprintf("view reports %dx%d", w, h)
-		for y := 0; y < h && y < 2; y++ {
+		out = fmt.Sprintf("the new view reports %dx%d", w, h)
+		panicked, elsewhere := false, false
+		for y := 0; y < h && !(panicked && elsewhere); y++ {
 			var row []byte
 			var err error
 			pr, _ := mc.Guard(func() { row, err = ns.GetRow(y, nil) })
+			uy := m.t + o.T + y
+			inside := uy >= 0 && uy < m.uh && m.l+o.L >= 0 && m.l+o.L+w <= m.uw
 			switch {
 			case pr != "":
-				out += fmt.Sprintf("; GetRow(%d) panics: %s", y, pr)
-			case err != nil:
-				out += fmt.Sprintf("; GetRow(%d) errors", y)
-			default:
-				n := len(row)
-				if n > 6 {
-					n = 6
+				if !panicked {
+					out += fmt.Sprintf("; GetRow(%d) panics: %s", y, pr)
+					panicked = true
 				}
-				out += fmt.Sprintf("; GetRow(%d) = %v", y, row[:n])
-				// which model pixels are these?
-				if len(row) > 0 && m.t+o.T+y >= 0 && m.t+o.T+y < m.uh {
-					var inrow []uint8
-					for x := 0; x < n; x++ {
-						ux := m.l + o.L + x
-						if ux >= 0 && ux < m.uw {
-							inrow = append(inrow, m.under[m.t+o.T+y][ux])
-						} else {
-							inrow = append(inrow, 0)
-						}
+			case err != nil || inside || elsewhere || len(row) < w || w == 0:
+			default:
+				elsewhere = true
+				n := min(w, 6)
+				out += fmt.Sprintf("; GetRow(%d) = %v although the rectangle leaves the image there", y, row[:n])
+				var flat []uint8
+				for Y := 0; Y < m.uh; Y++ {
+					flat = append(flat, m.under[Y]...)
+				}
+				if k := strings.Index(string(flat), string(row[:n])); k >= 0 {
+					out += fmt.Sprintf(" (these are the pixels of image row %d from column %d", k/m.uw, k%m.uw)
+					if k%m.uw+n > m.uw {
+						out += " running on into the next row"
 					}
-					out += fmt.Sprintf(" (image row %d at these columns, 0 = outside: %v)", m.t+o.T+y, inrow)
+					out += fmt.Sprintf("; the rectangle asked for row %d from column %d)", uy, m.l+o.L)
 				}
 			}
 		}
@@ -340,12 +422,8 @@ func (s *stepper) step(src gozxing.LuminanceSource, m *vmodel, o vop, quiet bool
 		switch class {
 		case "negative-origin", "overflow-underlying":
 			if err == nil && !quiet {
-				key := "C17/crop/" + class + "/" + base
 				what := fmt.Sprintf("Crop(%d,%d,%d,%d) on a %dx%d view at (%d,%d) of a %dx%d image was accepted instead of reported as an error", o.L, o.T, o.W, o.H, m.w, m.h, m.l, m.t, m.uw, m.uh)
-				if firstReport(key) {
-					what += ": " + consequences(ns, m, o)
-				}
-				s.viol(key, what, o)
+				s.violf("C17/crop/"+class+"/"+base, func() string { return what + ": " + consequences(ns, m, o) }, o)
 			}
 			return nil, nil
 		case "negative-size", "zero-size":
@@ -618,9 +696,11 @@ func checkBase(l *mc.Local, kind string, w, h int) {
 	l.Count("evaluations", 1)
 	cs := vcase{Part: "base", Kind: kind, W: w, H: h}
 	if pm != "" {
-		chk.Violation("C17/panic/"+site+"/construct-"+kind, fmt.Sprintf("%s %dx%d: %s", kind, w, h, pm), cs)
+		what := fmt.Sprintf("%s %dx%d: %s", kind, w, h, pm)
+		report("C17/panic/"+site+"/construct-"+kind, fmt.Sprintf("%07d/%d", w*h, w), func() string { return what }, cs)
 	} else if d != "" {
-		chk.Violation("C17/base-luminance/"+kind, fmt.Sprintf("%s %dx%d: %s", kind, w, h, d), cs)
+		what := fmt.Sprintf("%s %dx%d: %s", kind, w, h, d)
+		report("C17/base-luminance/"+kind, fmt.Sprintf("%07d/%d", w*h, w), func() string { return what }, cs)
 	} else if w*h >= 2 {
 		l.Distinct("nontrivial", fmt.Sprintf("base/%s/%dx%d", kind, w, h))
 	}
